@@ -1,6 +1,6 @@
 """C03 - virtual-time scheduling follows the documented cycle model"""
 from .. import sched, sched_mon
-from ..explore import Outcome, standard
+from ..explore import Outcome, standard, sharded
 
 PID = "C03"
 LEVEL = "model_checking"
@@ -30,7 +30,8 @@ def jobs(tier):
         sh = sched.shapes(2, maxtop=3, maxleaves=3)
     else:
         sh = sched.shapes(3, maxtop=3, maxleaves=4)
-    return [("C03", s) for s in sh]
+    sweep = [("C03", s, "sweep") for s in [("L",), ("L", "L"), (("D", False, ("L",)),), (("D", False, ("L", "L")),)]]
+    return [("C03", s) for s in sh] + sharded(sweep, 8)
 
 
 def harness(job, ch):
